@@ -301,6 +301,41 @@ def derived_tensor_cases(only=None):
     return out
 
 
+def result_update_cases(only=None):
+    """an in-place update whose explicit target is the *result* of a function that NumPy documents as returning new
+    memory (flatten, copy, astype, repeat, roll, arithmetic, reductions over no axis, advanced indexing): the function's
+    input keeps its contents — with tracking on and inside no_autodiff (where the update writes straight into the
+    target's array).  -> [(name, message)]"""
+    out = []
+    makers = [("x.flatten()", lambda x: x.flatten()), ("x.copy()", lambda x: x.copy()), ("x.astype(float64)", lambda x: x.astype(np.float64)),
+              ("mg.repeat(x, 1, axis=0)", lambda x: mg.repeat(x, 1, axis=0)), ("mg.roll(x, 0)", lambda x: mg.roll(x, 0)),
+              ("+x", lambda x: +x), ("x * 1.0", lambda x: x * 1.0), ("mg.sum(x, axis=())", lambda x: mg.sum(x, axis=())),
+              ("x[[0, 1]]", lambda x: x[[0, 1]]), ("mg.concatenate([x])", lambda x: mg.concatenate([x])),
+              ("mg.stack([x])[0]-source", lambda x: mg.stack([x])), ("mg.where(True, x, 0.0)", lambda x: mg.where(True, x, 0.0)),
+              ("mg.clip(x, None, 100.0)", lambda x: mg.clip(x, None, 100.0)), ("mg.maximum(x, -100.0)", lambda x: mg.maximum(x, -100.0))]
+    for (name, mk), layout, untracked in [(m, l, u) for m in makers for l in ("C", "F") for u in (False, True)]:
+        nm = f"{name}|{layout}|{'no_autodiff' if untracked else 'tracked'}"
+        if only is not None and nm != only:
+            continue
+        a = np.arange(6.0).reshape(2, 3) + 1
+        x = mg.tensor(np.asfortranarray(a) if layout == "F" else a)
+        x0 = np.array(x.data)
+        try:
+            if untracked:
+                with mg.no_autodiff:
+                    y = mk(x)
+                    y *= 2.0
+            else:
+                y = mk(x)
+                y *= 2.0
+        except Exception as e:  # noqa: BLE001
+            out.append((nm, f"raised {type(e).__name__}: {str(e)[:60]}"))
+            continue
+        if not np.array_equal(x.data, x0):
+            out.append((nm, f"updating the result of {name} in place changed its input from {x0.tolist()} to {x.data.tolist()}"))
+    return out
+
+
 def nontrivial(prog):
     return len(prog) >= 6
 
@@ -339,6 +374,13 @@ def run(ctx: Ctx) -> Outcome:
     out.stats["op_cases"] = hist
     for name, msg in derived_tensor_cases():
         out.violations.append(Violation(f"C12|aliasing|derived:{name}", f"{name}: {msg}", {"kind": "derived", "name": name}))
+    rseen = set()
+    for name, msg in result_update_cases():
+        fam = name.split("|")[0]
+        if fam not in rseen:
+            rseen.add(fam)
+            out.violations.append(Violation(f"C12|input-changed|result-updated:{fam}", f"{name}: {msg}", {"kind": "result-update", "name": name}))
+    out.evaluations += 14 * 4
     out.evaluations += 22
     for k in range(22):
         out.nontrivial.add(stable_hash(["derived", k]))
@@ -367,6 +409,10 @@ def check_witness(w):
 
 def replay(data) -> bool:
     r = data["replay"]
+    if r.get("kind") == "result-update":
+        res = result_update_cases(only=r["name"])
+        print(res)
+        return bool(res)
     if r.get("kind") == "derived":
         res = derived_tensor_cases(only=r["name"])
         print(res)
